@@ -283,7 +283,7 @@ func observe(bc *blockchain.Blockchain, u *Universe, stateBlocks []uint64, block
 		observeState(o, "HeadState", st, u, version, true)
 		_ = closer()
 	}
-	if stateBlocks == nil {
+	if stateBlocks == nil && u.ObsFrom == 0 {
 		for n := uint64(0); n <= u.MaxHeight+1; n++ {
 			stateBlocks = append(stateBlocks, n)
 		}
@@ -304,8 +304,10 @@ func observe(bc *blockchain.Blockchain, u *Universe, stateBlocks []uint64, block
 	}
 	for _, h := range sortedFelts(u.BlockHashes) {
 		h := h
-		if n, ok := u.HashNum[h]; ok && u.ObsFrom > 0 && n < height {
-			continue // long chains: historical state only near the head (each legacy read copies the memory DB)
+		if n, ok := u.HashNum[h]; ok && (u.ObsFrom > 0 && n <= height || n+1 < height) {
+			// historical state by hash only for the head, its parent and unknown (reverted) hashes:
+			// by number every block is read
+			continue
 		}
 		tag := fmt.Sprintf("StateAtBlockHash(%s)", &h)
 		if st, closer, err := bc.StateAtBlockHash(&h); err != nil {
